@@ -30,7 +30,7 @@ def conc(words, seps, cont, inner=False, v=0):
         return conc(words, seps, cont, v=v).replace("`c d`", "`c  d`").replace("[l m]", "[l   m]").replace("`e f`", "`e  f`").replace("[x y]", "[x  y]").replace("`g h`", "`g   h`")
     out = [first, CONC[words[0]][0 if v == 0 else (v + 1) % 3]]        # never "|" / "epsilon" first: a paragraph must start with a plain token
     for g, s in enumerate(seps):
-        sep = {"s1": " ", "s2": "   " if g % 2 else "  ", "nl": "\n" + cp, "nli": "\n" + cp + "   ", "nll": "\n"}[s]
+        sep = {"s1": " ", "s2": ("  ", "   ", " " * 12)[(g + v) % 3], "nl": "\n" + cp, "nli": "\n" + cp + "   ", "nll": "\n"}[s]
         out.append(sep)
         out.append(CONC[words[g + 1]][(g + 1 + v) % 5])
     return "".join(out) + "\n"
